@@ -11,6 +11,8 @@ typedef struct { char* p; size_t n; size_t cap; } Out;
 
 static const char* tok_next(Tok* t) { if (t->i >= t->n) { fprintf(stderr, "GLUE: token underrun\n"); exit(3); } return t->v[t->i++]; }
 static uint64_t tok_u64(Tok* t) { return strtoull(tok_next(t), NULL, 10); }
+/* count token "N" or "N:M": the count field is set to N but only M elements follow (invalid objects for C04) */
+static uint64_t tok_count(Tok* t, uint64_t* follow) { const char* s = tok_next(t); char* e = NULL; const uint64_t n = strtoull(s, &e, 10); *follow = (e != NULL && *e == ':') ? strtoull(e + 1, NULL, 10) : n; return n; }
 static int64_t tok_i64(Tok* t) { return strtoll(tok_next(t), NULL, 10); }
 static float tok_f32(Tok* t) { const char* s = tok_next(t); uint32_t u = (uint32_t) strtoul(s + 1, NULL, 16); float f; memcpy(&f, &u, 4); return f; }
 static double tok_f64(Tok* t) { const char* s = tok_next(t); uint64_t u = strtoull(s + 1, NULL, 16); double f; memcpy(&f, &u, 8); return f; }
